@@ -270,7 +270,8 @@ fn run_shuttle(c: &[Sexp]) -> Sexp {
         .collect();
     let bin = shuttle_bin();
     if !bin.exists() {
-        return list(vec![sym("shuttle-bin-missing"), Sexp::A(bin.to_string_lossy().as_bytes().to_vec())]);
+        let log = bin.ancestors().nth(3).map(|d| d.join("build.log")).and_then(|p| std::fs::read(p).ok()).unwrap_or_default();
+        return list(vec![sym("shuttle-bin-missing"), Sexp::A(bin.to_string_lossy().as_bytes().to_vec()), Sexp::A(log)]);
     }
     let mut cmd = std::process::Command::new(&bin);
     cmd.arg(mode).arg(c[2].as_int().to_string()).arg(c[3].as_int().to_string()).arg(c[4].as_str()).arg(scenario.join("/"));
